@@ -1,7 +1,9 @@
 //! Runtime-monitoring harness for validating-lightning-signer (see /verif/DESIGN.md).
+pub mod chanmodel;
 pub mod oracle;
 pub mod report;
 pub mod rng;
+pub mod snapshot;
 pub mod world;
 
 pub use report::{Cli, FinishSpec, Report, Tier};
